@@ -54,6 +54,35 @@ impl DynDigest for Rec {
 }
 
 
+/// Infallible fixed-capacity `io::Write` sink: records what was written and how many octets.
+/// Writing more than 16 octets is a harness error and shows up as a failed bounds check.
+pub(crate) struct Sink {
+    pub buf: [u8; 16],
+    pub len: usize,
+}
+impl Sink {
+    pub fn new() -> Self {
+        Sink { buf: [0; 16], len: 0 }
+    }
+}
+impl std::io::Write for Sink {
+    fn write(&mut self, data: &[u8]) -> std::io::Result<usize> {
+        let mut i = 0;
+        while i < data.len() {
+            self.buf[self.len] = data[i];
+            self.len += 1;
+            i += 1;
+        }
+        Ok(data.len())
+    }
+    fn write_all(&mut self, data: &[u8]) -> std::io::Result<()> {
+        self.write(data).map(|_| ())
+    }
+    fn flush(&mut self) -> std::io::Result<()> {
+        Ok(())
+    }
+}
+
 mod u09_tags {
     use crate::types::{KeyVersion, Tag};
 
